@@ -206,7 +206,7 @@ def combine1fiber(inloglam, objflux, newloglam, objivar=None, verbose=False,
         # and even, which is very strange.
         #
         if objivar is not None and objivar.ndim > 1:
-            saved_objivar = objivar
+            saved_objivar = objivar.copy()
             for spec in range(nspec):
                 igood = (objivar[spec, :] > 0).nonzero()[0]
                 if igood.size > 0:
